@@ -88,8 +88,8 @@ end R41
 a response is `<kind>/<status>/<sid>/<body>` with sid = `<other>.<seqid>` or a dash:
 * `40 reset`                                                             -> `ok`
 * `40 should <status>`                                                   -> `1` | `0` (transactionShouldComplete)
-* `40 arrive <call> <kind> <owner> <other> <argSeq> <seq> <cid>`         -> `reply c:<resp>` | `reply e:<code>` | `started <owner>` | `waiting <owner>`
-* `40 finish <owner> <kind> <status> <other|-> <seqid> <body> <lockOwner> <lockSeq> <reached 0|1>` -> `done <call> <reply> woken <c,...>` | `bad-op`
+* `40 arrive <call> <kind> <owner> <other> <argSeq> <seq> <cid>`         -> `reply c:<resp> fh=<other|->` | `reply e:<code> fh=-` | `started <owner>` | `waiting <owner>`
+* `40 finish <owner> <kind> <status> <other|-> <seqid> <body> <lockOwner> <lockSeq> <reached 0|1>` -> `done <call> <reply> fh=<other|-> woken <c,...>` | `bad-op` (fh: the file OPEN made the current filehandle)
 * `40 locktx <kind> <other> <argSeq> <seq> <xkind> <xstatus> <xother|-> <xseqid> <xbody>` -> `reply ... exec=<0|1>`
 -/
 namespace R40
@@ -130,8 +130,9 @@ def step (s : State) (ws : List String) : State × String :=
       let r : Req := ⟨k, owner, other, argSeq, seq, cid⟩
       let res := arrive s call r
       let o := match resolve s r with | some o => toString o | none => "-"
+      let fh := match arriveFH s call r with | some f => toString f | none => "-"
       (res.1, match res.2 with
-        | .reply rep => "reply " ++ showReply rep
+        | .reply rep => "reply " ++ showReply rep ++ " fh=" ++ fh
         | .started => "started " ++ o
         | .waiting => "waiting " ++ o)
     | _, _, _, _, _, _, _ => (s, "bad-op")
@@ -140,7 +141,11 @@ def step (s : State) (ws : List String) : State × String :=
     | some owner, some resp, some lk, some lq, some reached =>
       let res := finish s owner ⟨resp, lk, lq, reached != 0⟩
       match res.2.1 with
-      | some (call, rep) => (res.1, s!"done {call} {showReply rep} woken {",".intercalate (res.2.2.map toString)}")
+      | some (call, rep) =>
+        let fh := match (s.oo owner).busy with
+          | some (_, r) => (match finishFH r (effResp s r ⟨resp, lk, lq, reached != 0⟩) with | some f => toString f | none => "-")
+          | none => "-"
+        (res.1, s!"done {call} {showReply rep} fh={fh} woken {",".intercalate (res.2.2.map toString)}")
       | none => (s, "bad-op")
     | _, _, _, _, _ => (s, "bad-op")
   | ["locktx", k, other, argSeq, seq, xk, xst, xo, xq, xb] =>
